@@ -16,11 +16,10 @@ import struct
 from harness.core import fl, nl, bl, ll, pl, optl, FLOAT_AXIOMS
 
 PROP = "C14"
-THEOREMS_FULL = {"Artap.Props.C14": [
-    "C14_worstcase_children", "C14_worstcase_cost_shape", "C14_worstcase_no_reprocessing",
+THEOREMS = {"Artap.Props.C14": [
+    "C14_worstcase_children", "C14_displaced_one_axis", "C14_worstcase_cost_shape", "C14_worstcase_no_reprocessing",
     "C14_worstcase_call_budget", "C14_gradient_forward_difference", "C14_gradient_budget",
     "C14_gradient_no_reprocessing"]}
-THEOREMS = {}   # TEMP
 AXIOMS_OK = []
 TRUSTED = [
     "Coq 8.16.1 kernel, vm_compute for model evaluation (no native_compute)",
